@@ -49,11 +49,43 @@ func checkC11(p *Prog, r *Report) {
 	nStores, nLoads, nRets := 0, 0, 0
 	nDeref := 0
 	lsC11 := BuildLockset(p, "spine", "model")
-	for _, fn := range p.RepoFns("spine") {
-		if !isFunctionDataFn(fn) || seenOrigin[originOf(fn)] {
+	// an extracted helper of a store method is analysed in the scope of that method
+	// (the persist guard of its call site holds inside it)
+	type scoped struct{ fn, root *ssa.Function }
+	var work []scoped
+	inSomeScope := map[*ssa.Function]bool{}
+	for _, root := range p.RepoFns("spine") {
+		if !isFunctionDataFn(root) || seenOrigin[originOf(root)] || p.helperCandidate(root) && len(p.Callers(root)) > 0 {
 			continue
 		}
-		seenOrigin[originOf(fn)] = true
+		seenOrigin[originOf(root)] = true
+		for _, sf := range p.ScopeFns(root) {
+			if isFunctionDataFn(sf) && !inSomeScope[sf] && (sf == root || !seenOrigin[originOf(sf)]) {
+				inSomeScope[sf] = true
+				seenOrigin[originOf(sf)] = true
+				work = append(work, scoped{sf, root})
+			}
+		}
+	}
+	for _, fn := range p.RepoFns("spine") {
+		if isFunctionDataFn(fn) && !seenOrigin[originOf(fn)] && !inSomeScope[fn] {
+			seenOrigin[originOf(fn)] = true
+			work = append(work, scoped{fn, fn}) // helper shared by several methods: stands for itself
+		}
+	}
+	for _, w := range work {
+		fn, root := w.fn, w.root
+		p.InScope(root, func() { c11StoreFn(p, r, lsC11, fn, root, &nStores, &nLoads, &nRets, &nDeref) })
+	}
+	r.Floor("O1", "stores to FunctionData.data", nStores, 2)
+	r.Floor("O2", "loads of FunctionData.data", nLoads, 3)
+	c11Rest(p, r, lsC11)
+}
+
+func c11StoreFn(p *Prog, r *Report, lsC11 *Lockset, fn, root *ssa.Function, pnStores, pnLoads, pnRets, pnDeref *int) {
+	nStores, nLoads, nRets, nDeref := *pnStores, *pnLoads, *pnRets, *pnDeref
+	defer func() { *pnStores, *pnLoads, *pnRets, *pnDeref = nStores, nLoads, nRets, nDeref }()
+	{
 		base := FnName(originOf(fn))
 		storeIdx := 0
 		for _, b := range fn.Blocks {
@@ -81,10 +113,11 @@ func checkC11(p *Prog, r *Report) {
 					// O5: guarded by persist
 					guarded := false
 					for _, g := range Guards(b) {
-						if g.Val && strings.HasPrefix(Path(g.Cond), "param:") {
-							if prm, ok := g.Cond.(*ssa.Parameter); ok && prm.Name() == fn.Params[2].Name() && len(fn.Params) > 2 {
-								guarded = true
-							}
+						if !g.Val {
+							continue
+						}
+						if prm, ok := substParam(g.Cond).(*ssa.Parameter); ok && len(root.Params) > 2 && prm == root.Params[2] {
+							guarded = true
 						}
 					}
 					r.Check("O5", fmt.Sprintf("%s|store#%d", base, storeIdx), guarded, p.InstrPos(x), "the store is reached only on the true edge of the persist parameter")
@@ -111,6 +144,9 @@ func checkC11(p *Prog, r *Report) {
 					nLoads++
 					// uses of the stored pointer
 					bad := pointerEscapes(p, x, map[ssa.Value]bool{}, 0)
+					if lastStoreIsNil(x) {
+						bad = "" // the field was set to nil just before in the same block: the value is nil
+					}
 					r.Check("O2", fmt.Sprintf("%s|load#%d", base, nLoads), bad == "", p.InstrPos(x), "the stored pointer "+orStr(bad, "is only dereferenced, compared and used as receiver of the in-repository update"))
 				case *ssa.Return:
 					for i, res := range x.Results {
@@ -156,8 +192,9 @@ func checkC11(p *Prog, r *Report) {
 			r.Check("O2", base+"|copy", ok, p.Pos(fn.Pos()), "DataCopy returns the address of a local copy of the stored value")
 		}
 	}
-	r.Floor("O1", "stores to FunctionData.data", nStores, 2)
-	r.Floor("O2", "loads of FunctionData.data", nLoads, 3)
+}
+
+func c11Rest(p *Prog, r *Report, lsC11 *Lockset) {
 
 	// O2s: the list returned by the update is the persisted list
 	for _, fn := range p.RepoFns("spine") {
